@@ -269,6 +269,7 @@ func (r *RProgram) packetVariants(pk *RPacket, depth int, maxDev int) []*Value {
 	build := func(sel []int) *Value {
 		v := &Value{Kind: KObj, Packet: pk.Name}
 		vals := make([]*Value, n)
+		keyChosen := map[string]*Value{}
 		for i, f := range pk.Fields {
 			if f.Kind == KMatch {
 				mv := matchVars[i]
@@ -277,6 +278,21 @@ func (r *RProgram) packetVariants(pk *RPacket, depth int, maxDev int) []*Value {
 					continue
 				}
 				m := mv[sel[i]%len(mv)]
+				if kc, ok := keyChosen[f.KeyName]; ok {
+					// another match field on the same key already fixed the key's value: take the row it selects
+					found := false
+					for _, cand := range mv {
+						if cand.key.Bits == kc.Bits && cand.key.Str == kc.Str {
+							m = cand
+							found = true
+							break
+						}
+					}
+					if !found {
+						return nil // no consistent message for this combination
+					}
+				}
+				keyChosen[f.KeyName] = m.key
 				vals[i] = m.payload
 				for j, g := range pk.Fields {
 					if g.Name == f.KeyName {
@@ -311,14 +327,19 @@ func (r *RProgram) packetVariants(pk *RPacket, depth int, maxDev int) []*Value {
 		return len(per[i])
 	}
 	var out []*Value
+	add := func(v *Value) {
+		if v != nil {
+			out = append(out, v)
+		}
+	}
 	base := make([]int, n)
-	out = append(out, build(base))
+	add(build(base))
 	if maxDev >= 1 {
 		for i := 0; i < n; i++ {
 			for a := 1; a < count(i); a++ {
 				s := append([]int(nil), base...)
 				s[i] = a
-				out = append(out, build(s))
+				add(build(s))
 			}
 		}
 	}
@@ -329,7 +350,7 @@ func (r *RProgram) packetVariants(pk *RPacket, depth int, maxDev int) []*Value {
 					for b := 1; b < count(j) && b < 3; b++ {
 						s := append([]int(nil), base...)
 						s[i], s[j] = a, b
-						out = append(out, build(s))
+						add(build(s))
 					}
 				}
 			}
@@ -342,7 +363,7 @@ func (r *RProgram) packetVariants(pk *RPacket, depth int, maxDev int) []*Value {
 				s[i] = c - 1
 			}
 		}
-		out = append(out, build(s))
+		add(build(s))
 	}
 	return out
 }
